@@ -23,7 +23,7 @@ from .accfg_common import (
 )
 
 ID = "C06"
-BUDGET = {"quick": 4000, "thorough": 80000}
+BUDGET = {"quick": 8000, "thorough": 80000}
 K_ENVS = {"quick": 6, "thorough": 12}
 MIN_NONTRIVIAL = {"quick": 150, "thorough": 1500}
 RULE = (
@@ -44,10 +44,11 @@ def gen_case(rng, tier):
     prof["recent_bias"] = rng.choice([0, 0, 0.3, 0.6])
     prof["pure_loop"] = rng.choice([0, 0, 0.3, 0.5])
     prof["relaunch"] = rng.choice([0, 0, 0.15, 0.3])
-    prof["memory"] = rng.choice([0, 0, 0.5])  # some configuration values are kept in memory (stores and loads among the pure ops)
+    prof["memory"] = rng.choice([0, 0.5, 0.5])  # some configuration values are kept in memory (stores and loads among the pure ops)
     if prof["memory"]:
         prof["w_pure"] = max(prof["w_pure"], 3)
     prof["next_iv"] = rng.choice([0, 0, 0.3])  # loop bodies that compute %i + %step themselves, also inside nested regions
+    prof["partial"] = rng.choice([0, 0, 0, 0.3])  # setups that only write some of the fields
     prof["state_loops"] = rng.choice([0, 0, 0.5])  # hand-threaded loops that already carry an accelerator's state ...
     prof["head_launch"] = rng.choice([0, 0.5])  # ... and first launch the configuration they were entered with
     ast = G.AccfgGen(rng, prof).program()
@@ -160,13 +161,55 @@ def _loops_with_two_setups_then_setup(body):
     return visit(body, set(), set())
 
 
+def _loop_writes_field_a_later_setup_omits(body, acc, fidx):
+    """True iff some scf.for contains (anywhere in its body) a setup of accelerator `acc` that writes field number `fidx`, and a
+    setup of `acc` that does NOT write that field (a setup of only some of the fields) can execute after the loop: the same
+    exit-state dependence without any deduplication - the program itself leaves the field alone behind the loop."""
+
+    def writes(stmts):
+        for s in stmts:
+            if s["k"] == "sl" and s["acc"] == acc and fidx not in s.get("omit", ()):
+                return True
+            if any(writes(s.get(key, [])) for key in ("body", "then", "else")):
+                return True
+        return False
+
+    def omits(stmts):
+        for s in stmts:
+            if s["k"] == "sl" and s["acc"] == acc and fidx in s.get("omit", ()):
+                return True
+            if any(omits(s.get(key, [])) for key in ("body", "then", "else")):
+                return True
+        return False
+
+    def visit(stmts, later, in_loop):
+        for i, s in enumerate(stmts):
+            rest = later or omits(stmts[i + 1 :])
+            if s["k"] == "for":
+                if writes(s["body"]) and (rest or in_loop or omits(s["body"])):
+                    return True
+                if visit(s["body"], rest, in_loop or omits(s["body"])):
+                    return True
+            elif s["k"] in ("if", "sw"):
+                if visit(s["then"], rest, in_loop) or visit(s["else"], rest, in_loop):
+                    return True
+        return False
+
+    return visit(body, False, False)
+
+
 def _kf_c06_1(case, outcome):
-    return bool(
-        case.get("dedup")
-        and outcome.get("oracle") == "launch-history"
-        and " observes " in (outcome.get("message") or "")
-        and _loops_with_two_setups_then_setup(case["ast"]["body"])
-    )
+    import re
+
+    msg = outcome.get("message") or ""
+    if outcome.get("oracle") != "launch-history" or " observes " not in msg:
+        return False
+    if case.get("dedup") and _loops_with_two_setups_then_setup(case["ast"]["body"]):
+        return True
+    m = re.search(r"launch of acc(\d+) observes (\w+)=", msg)
+    if m and m.group(2) in G.FIELD_NAMES:
+        return _loop_writes_field_a_later_setup_omits(case["ast"]["body"], int(m.group(1)), G.FIELD_NAMES.index(m.group(2)))
+    return False
 
 
 TRIGGERS = {"loop_epilogue_changes_exit_state": _kf_c06_1}
